@@ -424,7 +424,9 @@ impl Debug for FramesDebug {
 
 pub(crate) fn num_frames(frames: &[Frame], slice: Option<(usize, usize)>) -> usize {
 	if let Some((start, end)) = slice {
-		end - start
+		// a slice that reaches beyond the end of the audio (or is inverted)
+		// only covers the frames that actually exist
+		end.min(frames.len()).saturating_sub(start)
 	} else {
 		frames.len()
 	}
